@@ -127,6 +127,27 @@ def handle (req : Sexp) : Sexp :=
         let sp := if v.w > 0 && v.h > 0 then put (Spec.equivalentTransform pr w h v) else .atom "na"
         some (ok [put (resolveTransforms pr w h (some v)), sp])
       | _ => none
+    | .list [.atom "viewboxs", w, h, .list [a, b, c, d], .str par, intended] => do
+      -- model: the attribute text through parsePAR; spec: the alignment the generator intended (valid texts only)
+      let w ← w.asRat?
+      let h ← h.asRat?
+      let v : VB := { x := ← a.asRat?, y := ← b.asRat?, w := ← c.asRat?, h := ← d.asRat? }
+      let put (t : XF) := Sexp.list [ofRat t.sx, ofRat t.sy, ofRat t.tx, ofRat t.ty]
+      let sp ← match intended with
+        | .list [ax, ay, no, sl] => do
+          let pr : PAR := { x := ← getAlign ax, y := ← getAlign ay, none := ← no.asBool?, slice := ← sl.asBool? }
+          some (if v.w > 0 && v.h > 0 then put (Spec.equivalentTransform pr w h v) else .atom "na")
+        | _ => some (.atom "na")
+      some (ok [put (resolveTransforms (parsePAR par.toList) w h (some v)), sp])
+    | .list [.atom "guard", .list (.atom "defs" :: ds), root] => do
+      let defs ← ds.mapM fun
+        | .list [id, n] => do some ((← id.asNat?), (← getNode 64 n))
+        | _ => none
+      let root ← getNode 64 root
+      match drawGuarded defs root with
+      | .ok d => some (ok (d.map ofNat))
+      | .error .recursive => some (tag "err" [.atom "recursive"])
+      | .error .fuel => some (tag "err" [.atom "fuel"])
     | .list [.atom "use", .list (.atom "defs" :: ds), root] => do
       let defs ← ds.mapM fun
         | .list [id, n] => do some ((← id.asNat?), (← getNode 64 n))
